@@ -84,8 +84,18 @@ func VH_C14_routed() {
 	}
 	uid := "uid-1"
 	review := admv1.AdmissionReview{Request: &admv1.AdmissionRequest{UID: types.UID(uid), Name: "obj"}}
+	// the request itself may be unusable: a review without a request, or a body that is not
+	// announced as JSON - nothing is admitted then and no hook runs
+	reqShape := zz.Len("request_shape", 0, 2)
+	ctype := "application/json"
+	switch reqShape {
+	case 1:
+		review.Request = nil
+	case 2:
+		ctype = "text/plain"
+	}
 	req := &http.Request{Method: "POST", URL: &url.URL{Path: path}, Body: zzhttp.JSONBody(review),
-		Header: http.Header{"Content-Type": []string{"application/json"}}, ContentLength: 10}
+		Header: http.Header{"Content-Type": []string{ctype}}, ContentLength: 10}
 
 	allow := zz.Len("hook_allows", 0, 1) == 1
 	ran := 0
@@ -101,6 +111,13 @@ func VH_C14_routed() {
 
 	var out admv1.AdmissionReview
 	ok := sink.Decode(&out)
+	if reqShape != 0 {
+		zz.Assert(ran == 0, "no_hook_runs_for_an_unusable_request")
+		zz.Assert(!ok || out.Response == nil || !out.Response.Allowed, "unusable_request_is_not_admitted")
+		zz.Assert(sink.Status >= 400, "unusable_request_is_an_http_error")
+		zz.Reach("end")
+		return
+	}
 	zz.Assert(ok && out.Response != nil, "every_post_is_answered_with_a_review")
 	if !ok || out.Response == nil {
 		return
